@@ -26,7 +26,7 @@ const N_REJECTED: usize = 24;
 /// the repetition before which 20 unrelated projects are compiled
 const REP_AFTER_UNRELATED: usize = 3;
 /// the repetition that runs on a fresh thread (fresh `RandomState` key material from the OS)
-const REP_FRESH_THREAD: usize = 5;
+const REP_FRESH_THREAD: usize = 5; // and 13, 21, ...
 const XPROC_RUNS: usize = 3;
 const DEFAULT_SYLT_BIN: &str = "/verif/harness/target/repo-bin/release/sylt";
 
@@ -102,8 +102,10 @@ fn sylt_bin() -> &'static Result<PathBuf, String> {
         }
         let repo = std::env::var("SYLT_REPO").unwrap_or_else(|_| "/repo".to_string());
         let bin_m = std::fs::metadata(&bin).and_then(|m| m.modified()).map_err(|e| e.to_string())?;
+        let self_m = std::env::current_exe().and_then(std::fs::metadata).and_then(|m| m.modified()).ok();
         match newest_source_mtime(Path::new(&repo)) {
             Some(src_m) if src_m > bin_m => Err(format!("driver binary {} is older than the sources under {} (stale)", bin.display(), repo)),
+            Some(src_m) if self_m.map(|m| src_m > m).unwrap_or(false) => Err(format!("this executable is older than the sources under {} (the library linked into it and the driver binary may differ)", repo)),
             _ => Ok(bin),
         }
     })
@@ -319,10 +321,26 @@ fn difference(orig: &Project, a: &Outcome, b: &Outcome, strip: &str) -> Option<(
                 lossy(lx.get(first).copied().unwrap_or(b"<end>"), 300),
                 lossy(ly.get(first).copied().unwrap_or(b"<end>"), 300)
             );
+            let l1 = String::from_utf8_lossy(lx.get(first).copied().unwrap_or(b"")).to_string();
+            let l2 = String::from_utf8_lossy(ly.get(first).copied().unwrap_or(b"")).to_string();
+            let both = |p: &str| l1.contains(p) && l2.contains(p);
+            let site = if both("__BLOB{") {
+                "blob-literal"
+            } else if both("__VARIANT{") {
+                "variant"
+            } else if both("__LIST{") || both("__TUPLE{") {
+                "collection"
+            } else if both("local function") || l1.trim_start().starts_with("local function") != l2.trim_start().starts_with("local function") {
+                "global-definition-order"
+            } else if l1.trim_start().starts_with("local ") && l2.trim_start().starts_with("local ") {
+                "local-definition"
+            } else {
+                "other"
+            };
             lx.sort();
             ly.sort();
             let what = if lx == ly { "lua-lines-reordered" } else { "lua-content-differs" };
-            Some((format!("output/{}", what), detail))
+            Some((format!("output/{}/{}", what, site), detail))
         }
         (Outcome::Rejected { errors: x, .. }, Outcome::Rejected { errors: y, .. }) => {
             let idx = x.iter().zip(y.iter()).position(|(p, q)| p != q);
@@ -407,6 +425,34 @@ fn difference(orig: &Project, a: &Outcome, b: &Outcome, strip: &str) -> Option<(
             }
             Some((format!("outcome/{}-vs-{}", p, q), "one compilation succeeds/fails where another does not".to_string()))
         }
+    }
+}
+
+/// compares two outcomes of the same sources placed in different directories: Lua bytes, or the error
+/// lists without the rendered text (source excerpts are only available for files on disk) and with the
+/// directory prefix removed from file names and messages
+fn relocated_difference(on_disk: &Outcome, in_memory: &Outcome, dir: &str) -> Option<(String, String)> {
+    let norm = |e: &ErrInfo| {
+        (e.kind.clone(), e.sub.clone(), e.file.as_ref().map(|f| f.replace(dir, "")), e.line, e.line_end, e.col_start, e.col_end, e.message.replace(dir, ""))
+    };
+    match (on_disk, in_memory) {
+        (Outcome::Accepted(a), Outcome::Accepted(b)) => {
+            if a == b {
+                None
+            } else {
+                Some(("lua-differs".into(), "the emitted Lua depends on where the files are".into()))
+            }
+        }
+        (Outcome::Rejected { errors: a, .. }, Outcome::Rejected { errors: b, .. }) => {
+            let (na, nb): (Vec<_>, Vec<_>) = (a.iter().map(norm).collect(), b.iter().map(norm).collect());
+            if na == nb {
+                None
+            } else {
+                Some(("errors-differ".into(), "the error list depends on where the files are (beyond the file names themselves)".into()))
+            }
+        }
+        (Outcome::Panicked { .. }, Outcome::Panicked { .. }) => None,
+        _ => Some(("outcome-differs".into(), "acceptance depends on where the files are".into())),
     }
 }
 
@@ -694,22 +740,29 @@ impl Check for C16 {
              independent errors of one phase (blobs/enums whose member types are unresolvable / use undeclared generics / too many type \
              arguments; unresolved names with 3-8 candidates at equal edit distance; duplicate definitions; type errors in several \
              functions and chained globals; syntax errors in several lines/files; missing files; import errors; mutated corpus programs). \
-             Oracle: the project is materialised and compiled {} times in-process when it is accepted, {} times when it is rejected \
-             (every HashMap of the compiler gets a new RandomState per compile; repetition {} runs after 20 unrelated compilations, \
-             repetition {} on a fresh thread); all outcomes must be equal: identical Lua bytes, or identical error lists (kind, variant, \
-             file, line, columns, message, rendered text, order). Detection: a dependence that picks one of k>=2 equally likely results \
-             per compile is missed with probability k^(1-N): <= 0.79 % for accepted programs (N=8, k=2; 0.05 % for k=3), <= 1.2e-7 for \
-             rejected ones (N=24), i.e. > 99 % per case for every class. Cross-process (when the driver binary of the tree is present \
-             and not older than the sources): {} runs of `sylt -o FILE main.sy` in fresh processes, the last with a scrubbed, unusual \
-             environment (HOME, LANG, TZ, TERM, TMPDIR, extra variables) and another working directory: exit status, stdout, stderr \
-             and output-file bytes must be identical, and equal to the in-process result (Lua bytes / rendered errors). NO_COLOR and \
-             RUST_BACKTRACE are fixed. non-trivial = >= 2 independent errors (planted or reported) or >= 2 blobs/enums with >= 3 \
-             members in the user files; distinct by hash of the project",
+             Known-finding triggers (two or more erroneous member types inside one blob/enum; a repeated member name) are avoided by \
+             construction in 80 % of the cases. Oracle: the project is materialised in a fresh directory and compiled {} times \
+             in-process when it is accepted, {} times when it is rejected (stored cases - replays, known-finding reproducers, \
+             regression seeds - {} times); every HashMap of the compiler gets a new RandomState per compile; repetition {} runs after \
+             {} unrelated compilations that use the same in-memory file names, every 8th repetition on a fresh thread. All outcomes \
+             must be equal: identical Lua bytes, or identical error lists (kind, variant, file, line, columns, message, rendered text, \
+             order). The same project served from memory is compiled before and after the unrelated compilations (must be equal) and \
+             must equal the on-disk result up to the directory prefix. Detection: a dependence that picks one of k>=2 equally likely \
+             results per compile is missed with probability k^(1-N): <= 0.79 % for accepted programs (N=8, k=2; 0.05 % for k=3), \
+             <= 1.2e-7 for rejected ones (N=24), i.e. > 99 % per case for every class; an effect that shows once in 128 compiles is \
+             seen with 17 % per rejected case during the search and > 99.9 % on a stored case. Cross-process (when the driver binary \
+             of the tree is present and neither it nor this executable is older than the sources): {} runs of `sylt -o FILE main.sy` \
+             in fresh processes, the last with a scrubbed, unusual environment (HOME, LANG, LC_ALL, TZ, TERM, COLUMNS, TMPDIR, USER, \
+             extra variables) and another working directory: exit status, stdout, stderr and output-file bytes must be identical, \
+             and equal to the in-process result (Lua bytes / rendered errors). NO_COLOR and RUST_BACKTRACE are fixed. non-trivial = \
+             >= 2 independent errors (planted or reported) or >= 2 blobs/enums with >= 3 members in the user files; distinct by hash \
+             of the project",
             gen::CLASSES.join(", "),
             N_ACCEPTED,
             N_REJECTED,
+            N_STORED,
             REP_AFTER_UNRELATED,
-            REP_FRESH_THREAD,
+            gen::unrelated().len(),
             XPROC_RUNS
         )
     }
@@ -718,7 +771,9 @@ impl Check for C16 {
         vec![
             "colour control (NO_COLOR/CLICOLOR) and RUST_BACKTRACE are documented switches and are held fixed; nothing else in the environment is held fixed".into(),
             "a project whose every compilation panics identically is discarded here (totality is C07's property)".into(),
-            "the cross-process part runs only when target/repo-bin/release/sylt exists and is not older than the sources of the tree (otherwise coverage.cross_process = false)".into(),
+            "the cross-process part runs only when target/repo-bin/release/sylt exists and neither it nor svcheck is older than the sources of the tree (otherwise coverage.cross_process = false and coverage.cross_process_skipped_because says why)".into(),
+            "a violation witnessed on an input stays the verdict for that input within the process (re-evaluations during shrinking can miss a probabilistic effect; the witnessed pair of differing outcomes is kept in the detail)".into(),
+            "signatures name the root cause by where the first differing error sits (phase / kind of enclosing declaration, found by a textual scan) or which Lua construct differs; a project that repeats a member name inside a blob/enum is attributed to the duplicate-member finding".into(),
         ]
     }
 
@@ -781,10 +836,19 @@ impl C16 {
             Outcome::Accepted(_) => N_ACCEPTED,
             Outcome::Rejected { .. } => N_REJECTED,
         };
+        // the same project served from memory under the paths the unrelated projects use too
+        // (/p/main.sy, /p/other.sy, ...): state that leaks from one compilation into the next, keyed by
+        // path or not, shows as a difference between the compilation before and the one after them
+        let mem_before = compile(&case.project);
         for i in 1..reps {
             if i % 32 == REP_AFTER_UNRELATED {
                 for u in gen::unrelated() {
                     let _ = compile(u);
+                }
+                let mem_after = compile(&case.project);
+                if let Some((tail, expl)) = difference(&case.project, &mem_before, &mem_after, "") {
+                    let how = format!("in-memory compilation before vs after {} unrelated compilations that use the same file names", gen::unrelated().len());
+                    return self.violation(case, tail, expl, &how, show_outcome(&mem_before), show_outcome(&mem_after));
                 }
             }
             let o = if i % 8 == REP_FRESH_THREAD { vcore::on_big_stack_scoped(256, || compile_fs(proj)) } else { compile_fs(proj) };
@@ -792,6 +856,33 @@ impl C16 {
                 let how = format!("in-process repetition 0 vs {}", i);
                 return self.violation(case, tail, expl, &how, show_outcome(&first), show_outcome(&o));
             }
+        }
+        // all repetitions agree. The in-memory compilation must agree with the compilation of the materialised files, up to the directory prefix
+        // (the materialised copy lives in a directory no earlier compilation has seen)
+        if let Some((what, expl)) = relocated_difference(&first, &mem_before, &strip) {
+            // persistent (a function of the location / of earlier compilations) or a rare effect of the hash seeds?
+            let mut persistent = true;
+            for _ in 0..3 {
+                let (m2, f2) = (compile(&case.project), compile_fs(proj));
+                if let Some((tail, expl)) = difference(&case.project, &mem_before, &m2, "") {
+                    return self.violation(case, tail, expl, "two in-memory compilations", show_outcome(&mem_before), show_outcome(&m2));
+                }
+                if let Some((tail, expl)) = difference(&case.project, &first, &f2, &strip) {
+                    return self.violation(case, tail, expl, "two compilations of the materialised files", show_outcome(&first), show_outcome(&f2));
+                }
+                if relocated_difference(&f2, &m2, &strip).is_none() {
+                    persistent = false;
+                }
+            }
+            let tail = if persistent { format!("earlier-compilations-or-location/{}", what) } else { "nondeterministic/rare-difference".to_string() };
+            return self.violation(
+                case,
+                tail,
+                expl,
+                "files on disk in a fresh directory vs the same files served from memory as /p/*.sy",
+                show_outcome(&first),
+                show_outcome(&mem_before),
+            );
         }
         match &first {
             Outcome::Panicked { .. } => return Verdict::Discard("panics-identically".into()),
